@@ -14,7 +14,6 @@
    of RtcpSpecProofs.v; they are repeated here so that this file only depends on the
    specification files. *)
 From Coq Require Import NArith ZArith List Bool Lia.
-From Srtp Require Import XtnProofs CryptexProofs.
 From Srtp Require Import Util Constants KeyLimit Rdb Rdbx Icm World Stream Rtp
      MonadLemmas EnvelopeProofs WfProofs BoundsRtcp BoundsRtp LengthProofs RtcpSpec RtpSpec.
 Import ListNotations.
@@ -469,103 +468,462 @@ Lemma charged_xtn st i : s_enc_xtn (charged_stream st i) = s_enc_xtn st.
 Proof. unfold charged_stream. destruct (s_clone st); [reflexivity|]. destruct (nth_error _ _); reflexivity. Qed.
 
 (* ===================================================================== *)
-(* 4b. RFC 6904 on a block: locality and involution of xtn_apply            *)
+(* 5. srtp_protect                                                        *)
 (* ===================================================================== *)
-Lemma splice_app_l {A} o (v a b : list A) : (o + length v <= length a)%nat -> splice o v (a ++ b) = splice o v a ++ b.
+Lemma enc0_bounds pkt L : validate_rtp pkt L = st_ok -> 12 <= enc0 pkt <= L.
 Proof.
-  revert o v. induction a as [|x a IH]; intros o v H.
-  - cbn in H. assert (length v = O) by lia. destruct v; [|discriminate]. rewrite splice_nil. destruct o; reflexivity.
-  - destruct o as [|o].
-    + destruct v as [|y v]; [reflexivity|]. cbn. rewrite IH by (cbn in H; lia). reflexivity.
-    + cbn. rewrite IH by (cbn in H; lia). reflexivity.
-Qed.
-Lemma splice_splice_same {A} o (v v' l : list A) : length v = length v' -> splice o v' (splice o v l) = splice o v' l.
-Proof.
-  revert o v v'. induction l as [|x l IH]; intros o v v' H.
-  - destruct o; reflexivity.
-  - destruct o as [|o].
-    + destruct v as [|y v], v' as [|y' v']; try discriminate; [reflexivity|]. cbn. rewrite IH by (cbn in H; lia). reflexivity.
-    + cbn. rewrite IH by exact H. reflexivity.
-Qed.
-Lemma splice_self {A} o n (l : list A) : splice o (slice o n l) l = l.
-Proof.
-  revert o n. induction l as [|x l IH]; intros o n.
-  - destruct o; reflexivity.
-  - destruct o as [|o].
-    + destruct n as [|n]; [reflexivity|]. cbn. f_equal. exact (IH O n).
-    + cbn. f_equal. exact (IH o n).
-Qed.
-Lemma be16_app_l a b o : (o + 2 <= length a)%nat -> be16 (a ++ b) o = be16 a o.
-Proof. intros H. unfold be16. rewrite slice_app_l by exact H. reflexivity. Qed.
-Lemma be16_splice_above l o p v : (o + 2 <= p)%nat -> be16 (splice p v l) o = be16 l o.
-Proof. intros H. unfold be16. rewrite slice_splice_below by exact H. reflexivity. Qed.
-
-Section XAPP.
-Variables (ids : bytes) (xcs : cstate) (off : Z).
-Hypothesis Hoff : 0 <= off.
-
-Lemma xtn_apply_length q q' : xtn_apply ids xcs off q = Some q' -> length q' = length q.
-Proof.
-  unfold xtn_apply. destruct (_ && _); [discriminate|].
-  destruct (if be16 q (zn off) =? xtn_hdr_one_byte_profile_c then _ else _) as [d'|]; [|discriminate].
-  intros H. injection H as <-. apply splice_length.
+  intros V. apply validate_rtp_ok in V. destruct V as (V1 & V2 & V3). unfold enc0.
+  pose proof (hdr_cc_range pkt). pose proof (hdr_len_eq pkt). pose proof (xtn_len_ge pkt).
+  destruct (hdr_x pkt =? 1) eqn:EX; [apply Z.eqb_eq in EX; specialize (V3 EX)|]; lia.
 Qed.
 
-(* only the block up to the end of the extension matters *)
-Lemma xtn_apply_app A B :
-  off + 4 + be16 A (zn (off + 2)) * 4 <= lenZ A ->
-  xtn_apply ids xcs off (A ++ B) = option_map (fun A' => A' ++ B) (xtn_apply ids xcs off A).
+(* the payload without cryptex: everything from es on, encrypted or as it is *)
+Definition pay_body (conf : bool) (cs : cstate) (es : Z) (pkt : bytes) : bytes + Z :=
+  if conf then
+    let '(s, _, o) := cipher_encrypt cs (drop (zn es) pkt) in
+    if negb (s =? st_ok) then inr st_cipher_fail else inl (take (zn es) pkt ++ o)
+  else inl pkt.
+
+Lemma wire_crypt_plain st cs p1 : s_cryptex st = false -> wire_crypt st cs p1 = pay_body (rtp_conf st) cs (enc0 p1) p1.
+Proof. intros H. unfold wire_crypt, pay_body. rewrite H. reflexivity. Qed.
+
+Section RTP_REF.
+Variables (L C : Z) (al : bool) (src d0 pkt : bytes).
+Hypothesis HL : 0 <= L < 9223372036854775808.
+Hypothesis HC : 0 <= C < 9223372036854775808.
+Hypothesis HD : C <= lenZ d0.
+(* the input block holds the packet (L octets) *)
+Hypothesis Hpkt : take (zn L) (if al then d0 else src) = pkt.
+Hypothesis HLp : lenZ pkt = L.
+
+Notation S := (St L C al src d0).
+
+Lemma in_slice off n : 0 <= off -> 0 <= n -> off + n <= L ->
+  slice (zn off) (zn n) (if al then d0 else src) = slice (zn off) (zn n) pkt.
+Proof. intros H1 H2 H3. rewrite <- Hpkt. symmetry. apply slice_take. unfold zn. lia. Qed.
+
+Lemma St_exit ss D w : S ss D w -> w_s w = ss /\ b_src (w_b w) = src /\ b_oob (w_b w) = false.
+Proof. intros (h0 & h1 & h2 & h3 & h4 & h5 & h6 & h7). auto. Qed.
+
+Lemma Hpkt_b : take (zn L) (cur_src (b_init L C al src d0)) = pkt.
+Proof. exact Hpkt. Qed.
+Ltac norm_b :=
+  change (b_len (b_init L C al src d0)) with L;
+  change (b_cap (b_init L C al src d0)) with C;
+  change (b_alias (b_init L C al src d0)) with al;
+  rewrite ?Hpkt_b.
+
+Ltac away_tac := repeat (apply Forall_cons || apply Forall_nil); unfold away; cbn [fst snd]; lia.
+
+(* the packet region after the header copy *)
+Definition P0 (es : Z) : bytes := if al then pkt else take (zn es) pkt.
+Lemma P0_len es : 0 <= es <= L -> lenZ (P0 es) = if al then L else es.
+Proof. intros H. unfold P0. destruct al; [exact HLp|]. unfold lenZ, zn in *. rewrite take_length. lia. Qed.
+
+Lemma header_copy ss es E :
+  0 <= es <= L -> es <= C ->
+  tri (S ss (eq d0)) (if al then ret tt else (h <- rd_src 0 es ;; wr_dst 0 h))
+      (fun _ => S ss (facts_ok [(0, P0 es)])) E.
 Proof.
-  intros HB. pose proof (be16_nonneg A (zn (off + 2))) as NN. unfold xtn_apply.
-  rewrite !be16_app_l by (unfold lenZ, zn in *; lia).
-  destruct (_ && _); [reflexivity|].
-  rewrite slice_app_l by (unfold lenZ, zn in *; lia).
-  set (d := slice (zn (off + 4)) (zn (be16 A (zn (off + 2)) * 4)) A).
-  destruct (if be16 A (zn off) =? xtn_hdr_one_byte_profile_c then _ else _) as [d'|] eqn:EW; [|reflexivity].
-  cbn [option_map]. f_equal. apply splice_app_l.
-  assert (LD : length d' = length d).
-  { destruct (be16 A (zn off) =? xtn_hdr_one_byte_profile_c); [exact (xtn_one_length _ _ _ _ _ _ EW)|exact (xtn_two_length _ _ _ _ _ _ EW)]. }
-  rewrite LD. subst d. rewrite slice_length. unfold lenZ, zn in *. lia.
+  intros H1 H2. unfold P0. pose proof (in_slice 0 es) as I1. destruct al eqn:EA.
+  - apply t_ret. intros w Hw. eapply St_weaken; [|exact Hw]. intros dd _ <-.
+    constructor; [|constructor]. split; [cbn [fst]; lia|]. cbn [fst snd].
+    replace (length pkt) with (zn L) by (unfold lenZ, zn in *; lia). exact Hpkt.
+  - eapply t_bind; [apply t_rd_src; lia|intros h]. apply t_pure; intros (dd & _ & _ & ->).
+    rewrite I1 by lia. change (slice (zn 0) (zn es) pkt) with (take (zn es) pkt).
+    apply t_weaken with (D' := facts_ok []); [intros; constructor|].
+    assert (LT : lenZ (take (zn es) pkt) = es) by (unfold lenZ, zn in *; rewrite take_length; lia).
+    apply t_wr_facts; [exact HD|lia|lia|constructor].
 Qed.
 
-Lemma xtn_apply_outside q q' :
-  xtn_apply ids xcs off q = Some q' ->
-  take (zn (off + 4)) q' = take (zn (off + 4)) q /\
-  drop (zn (off + 4 + be16 q (zn (off + 2)) * 4)) q' = drop (zn (off + 4 + be16 q (zn (off + 2)) * 4)) q.
+Lemma payload_step ss (conf : bool) cs es fs0 :
+  0 <= es <= L -> L <= C -> Forall (away 0 L) fs0 ->
+  tri (S ss (facts_ok ((0, P0 es) :: fs0)))
+      (if conf then
+         d <- rd_src es (L - es) ;;
+         (let '(s, _, o) := cipher_encrypt cs d in
+          if negb (s =? st_ok) then exit_with st_cipher_fail else wr_dst es o)
+       else if al then ret tt
+       else (d <- rd_src es (L - es) ;; wr_dst es d))
+      (fun _ w => exists body, pay_body conf cs es pkt = inl body /\ lenZ body = L /\ S ss (facts_ok ((0, body) :: fs0)) w)
+      (fun s w => pay_body conf cs es pkt = inr s /\ S ss Dany w).
 Proof.
-  pose proof (be16_nonneg q (zn (off + 2))) as NN. unfold xtn_apply. destruct (_ && _); [discriminate|].
-  set (d := slice (zn (off + 4)) (zn (be16 q (zn (off + 2)) * 4)) q).
-  destruct (if be16 q (zn off) =? xtn_hdr_one_byte_profile_c then _ else _) as [d'|] eqn:EW; [|discriminate].
-  assert (LD : length d' = length d).
-  { destruct (be16 q (zn off) =? xtn_hdr_one_byte_profile_c); [exact (xtn_one_length _ _ _ _ _ _ EW)|exact (xtn_two_length _ _ _ _ _ _ EW)]. }
-  intros H. injection H as <-. split.
-  - apply take_splice_below. lia.
-  - apply drop_splice_above. rewrite LD. subst d. rewrite slice_length. unfold zn. lia.
+  intros Hes HLC Haway.
+  pose proof (P0_len es Hes) as LP0. unfold P0 in *.
+  assert (LT : lenZ (take (zn es) pkt) = es) by (unfold lenZ, zn in *; rewrite take_length; lia).
+  assert (LDr : lenZ (drop (zn es) pkt) = L - es) by (unfold lenZ, zn in *; rewrite drop_length; lia).
+  assert (Haw2 : forall n, 0 <= n -> es + n <= L -> Forall (away es n) fs0).
+  { intros n Hn1 Hn2. eapply Forall_impl; [|exact Haway]. intros f [A|A]; [left|right]; lia. }
+  assert (Hrd : forall dd, facts_ok ((0, if al then pkt else take (zn es) pkt) :: fs0) dd ->
+                           slice (zn es) (zn (L - es)) (if al then dd else src) = drop (zn es) pkt).
+  { intros dd Hf. pose proof (in_slice es (L - es)) as I2. unfold P0 in *. destruct al eqn:EA.
+    - inversion Hf as [|? ? F0 _]; subst. rewrite (fact0_read _ _ _ _ F0) by (unfold lenZ, zn in *; lia).
+      apply slice_to_end. unfold lenZ, zn in *. lia.
+    - rewrite I2 by lia. apply slice_to_end. unfold lenZ, zn in *. lia. }
+  unfold pay_body. destruct conf.
+  - eapply t_bind; [apply t_rd_src; lia|intros d]. apply t_pure; intros (dd & Hf & _ & ->). rewrite (Hrd dd Hf).
+    destruct (cipher_encrypt cs (drop (zn es) pkt)) as [[s c2] o] eqn:EE.
+    destruct (s =? st_ok) eqn:ES; cbn [negb].
+    + pose proof (cipher_encrypt_ok_length _ _ _ _ _ EE ES) as Lo.
+      assert (Lo' : lenZ o = L - es) by (unfold lenZ in *; lia).
+      unfold P0. destruct al eqn:EA.
+      * eapply t_post; [apply t_wr_in; [lia|lia|lia|rewrite Lo'; apply Haw2; lia]|].
+        intros ? w Hw. exists (take (zn es) pkt ++ o). split; [reflexivity|]. split; [rewrite lenZ_app; lia|].
+        rewrite splice_tail in Hw by (unfold lenZ, zn in *; lia). exact Hw.
+      * replace (wr_dst es o) with (wr_dst (lenZ (take (zn es) pkt)) o) by (rewrite LT; reflexivity).
+        eapply t_post; [apply t_wr_append; [exact HD|lia|rewrite LT, Lo'; apply Haw2; lia]|].
+        intros ? w Hw. exists (take (zn es) pkt ++ o). split; [reflexivity|]. split; [rewrite lenZ_app; lia|exact Hw].
+    + apply t_exit. intros w Hw. split; [reflexivity|]. exact (St_any _ _ _ _ _ _ _ _ Hw).
+  - unfold P0. destruct al eqn:EA.
+    + apply t_ret. intros w Hw. exists pkt. split; [reflexivity|]. split; [exact HLp|exact Hw].
+    + eapply t_bind; [apply t_rd_src; lia|intros d]. apply t_pure; intros (dd & Hf & _ & ->).
+      rewrite (Hrd dd Hf).
+      replace (wr_dst es (drop (zn es) pkt)) with (wr_dst (lenZ (take (zn es) pkt)) (drop (zn es) pkt)) by (rewrite LT; reflexivity).
+      eapply t_post; [apply t_wr_append; [exact HD|lia|rewrite LT, LDr; apply Haw2; lia]|].
+      intros ? w Hw. exists pkt. split; [reflexivity|]. split; [exact HLp|].
+      rewrite take_drop_id in Hw. exact Hw.
 Qed.
 
-(* applying it again gives the block back *)
-Theorem xtn_apply_involutive q q' :
-  off + 4 + be16 q (zn (off + 2)) * 4 <= lenZ q ->
-  xtn_apply ids xcs off q = Some q' -> xtn_apply ids xcs off q' = Some q.
+Variable ss0 : session.
+Variable st0 : stream.
+Hypothesis Hget : list_get (ss_list ss0) (hdr_ssrc pkt) = Some st0.
+Hypothesis Hwf : stream_wf st0.
+(* this section: neither cryptex nor a header-extension cipher *)
+Hypothesis Hcx : s_cryptex st0 = false.
+Hypothesis Hxk : forall k, In k (s_keys st0) -> k_xtn_c k = None.
+
+Definition ProtQ i (l : Z) (w : world) : Prop :=
+  exists wire, protect_fun ss0 i C pkt = (w_s w, inl wire) /\ l = lenZ wire /\
+               take (zn l) (b_dst (w_b w)) = wire /\ b_src (w_b w) = src /\ b_oob (w_b w) = false.
+Definition ProtE i (s : Z) (w : world) : Prop :=
+  protect_fun ss0 i C pkt = (w_s w, inr s) /\ b_src (w_b w) = src /\ b_oob (w_b w) = false.
+
+Lemma prot_exit ss D i s w : S ss D w -> protect_fun ss0 i C pkt = (ss, inr s) -> ProtE i s w.
+Proof. intros Hw Hs. destruct (St_exit _ _ _ Hw) as (e1 & e2 & e3). unfold ProtE. rewrite e1. auto. Qed.
+
+Lemma protect_tri i : tri (S ss0 (eq d0)) (protect i) (ProtQ i) (ProtE i).
 Proof.
-  intros HB. pose proof (be16_nonneg q (zn (off + 2))) as NN. unfold xtn_apply.
-  destruct (negb (be16 q (zn off) =? xtn_hdr_one_byte_profile_c) && _) eqn:EPf; [discriminate|].
-  set (n := be16 q (zn (off + 2)) * 4) in *.
-  set (d := slice (zn (off + 4)) (zn n) q).
-  assert (LD0 : length d = zn n) by (subst d; rewrite slice_length; unfold lenZ, zn in *; lia).
-  destruct (if be16 q (zn off) =? xtn_hdr_one_byte_profile_c then _ else _) as [d'|] eqn:EW; [|discriminate].
-  assert (LD : length d' = length d).
-  { destruct (be16 q (zn off) =? xtn_hdr_one_byte_profile_c); [exact (xtn_one_length _ _ _ _ _ _ EW)|exact (xtn_two_length _ _ _ _ _ _ EW)]. }
-  intros H. injection H as <-.
-  rewrite !be16_splice_above by (unfold zn; lia). fold n. rewrite EPf.
-  assert (ES : slice (zn (off + 4)) (zn n) (splice (zn (off + 4)) d' q) = d').
-  { rewrite <- LD0, <- LD. apply slice_splice_same. rewrite LD, LD0. unfold lenZ, zn in *. lia. }
-  rewrite ES, LD.
-  assert (EW2 : (if be16 q (zn off) =? xtn_hdr_one_byte_profile_c
-                 then xtn_one (S (length d)) ids xcs d' 0 else xtn_two (S (length d)) ids xcs d' 0) = Some d).
-  { destruct (be16 q (zn off) =? xtn_hdr_one_byte_profile_c);
-      [exact (xtn_one_involutive _ _ _ _ _ EW)|exact (xtn_two_involutive _ _ _ _ _ EW)]. }
-  rewrite EW2. f_equal. rewrite splice_splice_same by exact LD. subst d. apply splice_self.
+  pose proof (eq_refl (protect_fun ss0 i C pkt)) as SPEC. unfold protect_fun at 2 in SPEC.
+  cbv zeta in SPEC. rewrite HLp in SPEC.
+  unfold protect.
+  eapply t_bind; [apply t_get_b0|intros b]. apply t_pure; intros ->.
+  cbv beta zeta. norm_b.
+  change octets_in_rtp_header_c with 12. change octets_in_rtp_xtn_hdr_c with 4.
+  unfold check_st. destruct (validate_rtp pkt L =? st_ok) eqn:EV; cbn [negb] in SPEC.
+  2:{ apply t_bind_exit. intros w Hw. exact (prot_exit _ _ _ _ _ Hw SPEC). }
+  apply t_bind_ret. apply Z.eqb_eq in EV. pose proof (enc0_bounds _ _ EV) as EB.
+  rewrite Hget in SPEC. cbv beta iota in SPEC.
+  eapply t_bind; [eapply t_lookup_existing; exact Hget|intros r]. apply t_pure; intros ->.
+  eapply t_bind; [eapply t_check_direction; exact Hget|intros ?].
+  eapply t_bind; [apply t_get_stream_list; apply dir_session_get; exact Hget|intros st]. apply t_pure; intros Est.
+  rewrite <- Est in SPEC.
+  set (ss1 := dir_session ss0 (hdr_ssrc pkt) st0 dir_srtp_sender_c) in *.
+  pose proof (dir_stream_cfg st0 dir_srtp_sender_c) as CF. rewrite <- Est in CF.
+  assert (Wst : stream_wf st) by exact (stream_wf_cfg _ _ CF Hwf).
+  destruct CF as (CK & _ & _ & CX). rewrite Hcx in CX.
+  rewrite keys_by_index_eq. destruct (sender_key_st st i) as [[ki k]|e] eqn:EK.
+  2:{ apply t_bind_exit. intros w Hw. exact (prot_exit _ _ _ _ _ Hw SPEC). }
+  apply t_bind_ret. cbv beta iota.
+  pose proof (sender_key_st_In _ _ _ _ EK) as Hk.
+  pose proof (stream_wf_key _ _ Wst Hk) as (MK & TA & _).
+  assert (XK : k_xtn_c k = None) by (apply Hxk; rewrite <- CK; exact Hk).
+  destruct Wst as (M & U & _). rewrite max_mki_value in M.
+  pose proof (akey_prefix_le _ TA) as PL. pose proof TA as [T KP]. rewrite max_tag_value in T.
+  (* key usage *)
+  eapply t_bind2; [eapply t_charge_key; apply dir_session_get; exact Hget| |intros ?].
+  { intros s w (ss' & EC & Hw). rewrite <- Est in EC. rewrite EC in SPEC. exact (prot_exit _ _ _ _ _ Hw SPEC). }
+  apply t_ex; intros ss2. apply t_pure; intros EC. apply t_pure; intros Hg2.
+  rewrite <- Est in EC, Hg2. rewrite EC in SPEC.
+  destruct (C <? L + s_mki_size st + ak_tag (k_rtp_a k)) eqn:E1.
+  { apply t_bind_exit. intros w Hw. exact (prot_exit _ _ _ _ _ Hw SPEC). }
+  apply t_bind_ret. pose proof E1 as E1'. apply Z.ltb_ge in E1'.
+  unfold rtp_conf in SPEC at 1. rewrite CX in *. cbn [andb] in SPEC |- *. apply t_bind_ret.
+  fold (enc0 pkt). set (es := enc0 pkt) in *.
+  destruct (L <? es) eqn:E2; [apply Z.ltb_lt in E2; lia|]. apply t_bind_ret.
+  (* header *)
+  eapply t_bind; [apply header_copy; lia|intros ?].
+  (* MKI *)
+  set (mki := if s_use_mki st then k_mki k else []).
+  assert (LM : lenZ mki = s_mki_size st).
+  { subst mki. destruct (s_use_mki st); [exact MK|]. rewrite (U eq_refl). reflexivity. }
+  assert (LP : lenZ (P0 es) <= L) by (rewrite P0_len by lia; destruct al; lia).
+  apply t_bind with (R := fun _ => S ss2 (facts_ok [(L, mki); (0, P0 es)])).
+  { subst mki. destruct (s_use_mki st) eqn:EU.
+    - apply t_wr_facts; [exact HD|lia|lia|away_tac].
+    - apply t_ret. intros w Hw. eapply St_weaken; [|exact Hw]. intros dd _ Hf. apply facts_nil_fact; [lia|exact Hf]. }
+  intros ?.
+  (* zeroed tag without authentication *)
+  change (negb (Z.land (s_rtp_serv st) sec_serv_auth_c =? 0)) with (rtp_auth st).
+  set (Z0 := if rtp_auth st then [] else zeros (zn (ak_tag (k_rtp_a k)))).
+  assert (LZ0 : lenZ Z0 = if rtp_auth st then 0 else ak_tag (k_rtp_a k)).
+  { subst Z0. destruct (rtp_auth st); [reflexivity|apply lenZ_zeros; lia]. }
+  apply t_bind with (R := fun _ => S ss2 (facts_ok [(L + s_mki_size st, Z0); (L, mki); (0, P0 es)])).
+  { subst Z0. destruct (rtp_auth st).
+    - apply t_ret. intros w Hw. eapply St_weaken; [|exact Hw]. intros dd _ Hf. apply facts_nil_fact; [lia|exact Hf].
+    - apply t_wr_facts; [exact HD|lia|lia|away_tac]. }
+  intros ?.
+  (* index *)
+  eapply t_bind; [apply t_get_stream_list; exact Hg2|intros st2]. apply t_pure; intros ->.
+  set (st2 := charged_stream st ki) in *.
+  unfold index_step in SPEC. destruct (est_index st2 (hdr_seq pkt)) as [[est_st est] delta].
+  destruct (negb (est_st =? st_ok) && negb (est_st =? st_pkt_idx_adv)).
+  { apply t_bind_exit. intros w Hw. exact (prot_exit _ _ _ _ _ Hw SPEC). }
+  apply t_bind_ret.
+  apply t_bind with (R := fun _ w =>
+    exists st3, (if est_st =? st_pkt_idx_adv then inl (est, commit_advance st2 est)
+                 else if negb (rdbx_check (s_rdbx st2) delta =? st_ok) &&
+                         (negb (rdbx_check (s_rdbx st2) delta =? st_replay_fail) || negb (s_allow_repeat st2))
+                      then inr (rdbx_check (s_rdbx st2) delta)
+                      else inl (est, set_pending (set_rdbx st2 (rdbx_add (s_rdbx st2) delta)) 0)) = inl (est, st3) /\
+                S (sess_put ss2 (hdr_ssrc pkt) st3) (facts_ok [(L + s_mki_size st, Z0); (L, mki); (0, P0 es)]) w).
+  { destruct (est_st =? st_pkt_idx_adv).
+    - eapply t_post; [apply t_put_stream_list|]. intros ? w Hw. eexists. split; [reflexivity|exact Hw].
+    - destruct (negb (rdbx_check (s_rdbx st2) delta =? st_ok) &&
+                (negb (rdbx_check (s_rdbx st2) delta =? st_replay_fail) || negb (s_allow_repeat st2))).
+      + apply t_bind_exit. intros w Hw. exact (prot_exit _ _ _ _ _ Hw SPEC).
+      + apply t_bind_ret. eapply t_post; [apply t_put_stream_list|]. intros ? w Hw. eexists. split; [reflexivity|exact Hw]. }
+  intros ?. apply t_ex; intros st3. apply t_pure; intros E3. cbv zeta in SPEC. rewrite E3 in SPEC.
+  set (ss3 := sess_put ss2 (hdr_ssrc pkt) st3) in *.
+  eapply t_bind; [apply t_log_encrypt_iv|intros ?].
+  rewrite XK. apply t_bind_ret.
+  (* the wire function, unfolded as far as the checks passed so far allow *)
+  unfold rtp_wire_r in SPEC. rewrite HLp in SPEC.
+  replace (validate_rtp pkt L =? st_ok) with true in SPEC by (symmetry; apply Z.eqb_eq; exact EV).
+  rewrite CX, XK in SPEC. cbn [negb andb wire_xtn] in SPEC.
+  set (iv := rtp_iv (ck_alg (k_rtp_c k)) (hdr_ssrc pkt) est) in *.
+  (* keystream prefix *)
+  unfold wire_prefix in SPEC.
+  apply t_bind with (R := fun cs1 w =>
+     exists pre, (if rtp_auth st && negb (ak_prefix (k_rtp_a k) =? 0)
+                  then let '(s, cs', ks) := cipher_output (cipher_start (k_rtp_c k) iv) (ak_prefix (k_rtp_a k)) in
+                       if negb (s =? st_ok) then None else Some (cs', ks)
+                  else Some (cipher_start (k_rtp_c k) iv, [])) = Some (cs1, pre) /\
+                 lenZ pre = (if rtp_auth st then ak_prefix (k_rtp_a k) else 0) /\
+                 S ss3 (facts_ok [(L + s_mki_size st, pre); (L + s_mki_size st, Z0); (L, mki); (0, P0 es)]) w).
+  { destruct (rtp_auth st && negb (ak_prefix (k_rtp_a k) =? 0)) eqn:EPX.
+    - apply andb_true_iff in EPX. destruct EPX as [EA _]. rewrite EA in *.
+      destruct (cipher_output (cipher_start (k_rtp_c k) iv) (ak_prefix (k_rtp_a k))) as [[ps cs'] ks] eqn:EP.
+      destruct (ps =? st_ok) eqn:EPS; cbn [negb] in *.
+      2:{ apply t_exit. intros w Hw. exact (prot_exit _ _ _ _ _ Hw SPEC). }
+      assert (LK : lenZ ks = ak_prefix (k_rtp_a k)).
+      { pose proof (cipher_output_ok_length _ _ _ _ _ EP EPS) as H. unfold lenZ, zn in *. lia. }
+      eapply t_bind; [apply t_wr_facts; [exact HD|lia|lia|away_tac]|intros ?].
+      apply t_ret. intros w Hw. exists ks. auto.
+    - apply t_ret. intros w Hw. exists []. split; [reflexivity|]. split.
+      + destruct (rtp_auth st); [|reflexivity]. cbn [andb] in EPX. apply negb_false_iff, Z.eqb_eq in EPX. rewrite EPX. reflexivity.
+      + eapply St_weaken; [|exact Hw]. intros dd _ Hf. apply facts_nil_fact; [lia|exact Hf]. }
+  intros cs1. apply t_ex; intros pre. apply t_pure; intros EPRE. apply t_pure; intros LPRE.
+  rewrite EPRE in SPEC. rewrite (wire_crypt_plain st _ _ CX) in SPEC. fold es in SPEC.
+  apply t_bind_ret. apply t_bind_ret.
+  (* payload *)
+  replace (negb (Z.land (s_rtp_serv st2) sec_serv_conf_c =? 0)) with (rtp_conf st)
+    by (unfold rtp_conf, st2; rewrite charged_serv; reflexivity).
+  eapply t_bind2; [eapply t_weaken; [|apply (payload_step ss3 (rtp_conf st) cs1 es
+                            [(L + s_mki_size st, pre); (L + s_mki_size st, Z0); (L, mki)]); [lia|lia|away_tac]]| |intros ?].
+  { intros dd _ Hf. apply (facts_sub _ _ _ Hf). intros f Hin; cbn in *; tauto. }
+  { intros s w (EBD & Hw). rewrite EBD in SPEC. exact (prot_exit _ _ _ _ _ Hw SPEC). }
+  apply t_ex; intros body. apply t_pure; intros EBD. apply t_pure; intros LB.
+  rewrite EBD in SPEC. cbv beta iota in SPEC. apply t_bind_ret.
+  (* tag *)
+  unfold wire_tag in SPEC. cbv zeta in SPEC. fold mki in SPEC.
+  set (roc := take 4 (be64 (est * 65536))) in *.
+  apply t_bind with (R := fun _ w =>
+    exists tag, (if rtp_auth st then auth_compute (k_rtp_a k) (body ++ roc) ++ drop (length (auth_compute (k_rtp_a k) (body ++ roc))) pre
+                 else zeros (zn (ak_tag (k_rtp_a k)))) = tag /\ lenZ tag = ak_tag (k_rtp_a k) /\
+                S ss3 (facts_ok [(L + s_mki_size st, tag); (L, mki); (0, body)]) w).
+  { subst Z0. destruct (rtp_auth st) eqn:EA.
+    - eapply t_bind; [apply t_rd_dst; lia|intros m]. apply t_pure; intros (dd & Hf & Hdl & ->).
+      assert (Hm : slice (zn 0) (zn L) dd = body).
+      { change (zn 0) with O. rewrite <- LB, zn_len. apply (fact_get _ _ 0 _ Hf). cbn; tauto. }
+      rewrite Hm. set (c := auth_compute (k_rtp_a k) (body ++ roc)) in *.
+      assert (KT : (lenZ c = ak_tag (k_rtp_a k) /\ ak_prefix (k_rtp_a k) = 0) \/
+                   (lenZ c = 0 /\ ak_prefix (k_rtp_a k) = ak_tag (k_rtp_a k))).
+      { subst c. rewrite auth_compute_length by lia. destruct (ak_kind (k_rtp_a k) =? SRTP_HMAC_SHA1_c); auto. }
+      eapply t_post; [apply t_wr_facts; [exact HD|lia|lia|destruct KT as [[K1 K2]|[K1 K2]]; away_tac]|].
+      intros ? w Hw. eexists. split; [reflexivity|].
+      destruct KT as [[K1 K2]|[K1 K2]].
+      + assert (pre = []) as -> by (apply length0_nil; unfold lenZ in *; lia).
+        replace (drop (length c) []) with (@nil N) by (destruct (length c); reflexivity). rewrite app_nil_r.
+        split; [exact K1|]. eapply St_weaken; [|exact Hw]. intros d1 _ Hf1. apply (facts_sub _ _ _ Hf1).
+        intros f Hin; cbn in *; tauto.
+      + assert (c = []) as Ec by (apply length0_nil; unfold lenZ in *; lia).
+        rewrite Ec. cbn [length drop app]. split; [lia|]. eapply St_weaken; [|exact Hw]. intros d1 _ Hf1. apply (facts_sub _ _ _ Hf1).
+        intros f Hin; cbn in *; tauto.
+    - apply t_ret. intros w Hw. eexists. split; [reflexivity|]. split; [apply lenZ_zeros; lia|].
+      eapply St_weaken; [|exact Hw]. intros d1 _ Hf1. apply (facts_sub _ _ _ Hf1). intros f Hin; cbn in *; tauto. }
+  intros ?. apply t_ex; intros tag. apply t_pure; intros ETAG. apply t_pure; intros LTAG.
+  apply t_ret. intros w Hw. destruct Hw as (h0 & h1 & h2 & h3 & h4 & h5 & h6 & h7).
+  exists (body ++ mki ++ tag). rewrite h0. split; [rewrite <- ETAG; exact SPEC|].
+  assert (LW : lenZ (body ++ mki ++ tag) = L + s_mki_size st + ak_tag (k_rtp_a k)) by (rewrite !lenZ_app; lia).
+  unfold st2. rewrite charged_mki.
+  replace (es + (L - es) + ak_tag (k_rtp_a k) + s_mki_size st) with (lenZ (body ++ mki ++ tag)) by lia.
+  rewrite u64_small by lia. split; [reflexivity|]. split; [|auto].
+  rewrite zn_len, <- slice_0.
+  replace (body ++ mki ++ tag) with (concat [body; mki; tag]) by (cbn [concat]; rewrite app_nil_r; reflexivity).
+  apply (chain_slice _ 0); [lia|]. cbn [chain]. rewrite LB, LM.
+  repeat split; apply (fact_get _ _ _ _ h7); cbn; tauto.
 Qed.
-End XAPP.
-Print Assumptions xtn_apply_involutive.
+End RTP_REF.
+
+(* ===================================================================== *)
+(* 6. the theorems on worlds                                              *)
+(* ===================================================================== *)
+(* a successful protect_fun is a wire image in the sense of rtp_wire *)
+Lemma protect_fun_wire ss i C pkt ss' wire :
+  protect_fun ss i C pkt = (ss', inl wire) ->
+  exists st0 ki k est st3,
+    list_get (ss_list ss) (hdr_ssrc pkt) = Some st0 /\
+    sender_key_st (dir_stream st0 dir_srtp_sender_c) i = inl (ki, k) /\
+    index_step (charged_stream (dir_stream st0 dir_srtp_sender_c) ki) (hdr_seq pkt) = inl (est, st3) /\
+    rtp_wire (dir_stream st0 dir_srtp_sender_c) k est pkt = Some wire.
+Proof.
+  unfold protect_fun. cbv zeta.
+  destruct (negb (validate_rtp pkt (lenZ pkt) =? st_ok)); [intros H; discriminate|].
+  destruct (list_get (ss_list ss) (hdr_ssrc pkt)) as [st0|]; [|intros H; discriminate].
+  set (st := dir_stream st0 dir_srtp_sender_c).
+  destruct (sender_key_st st i) as [[ki k]|e] eqn:EK; [|intros H; discriminate].
+  destruct (charge_fun _ _ st ki) as [ss2 [u|e]]; [|intros H; discriminate].
+  destruct (C <? _) eqn:E1; [intros H; discriminate|].
+  destruct (_ && _ && _ && _); [intros H; discriminate|].
+  destruct (index_step _ _) as [[est st3]|e] eqn:EI; [|intros H; discriminate].
+  destruct (rtp_wire_r st k est pkt) as [wr|e] eqn:EW; intros H; [|discriminate].
+  injection H as _ <-. exists st0, ki, k, est, st3. fold st. repeat split; try assumption.
+  unfold rtp_wire. rewrite EW. reflexivity.
+Qed.
+
+Lemma St_init (w : world) :
+  b_oob (w_b w) = false ->
+  St (b_len (w_b w)) (b_cap (w_b w)) (b_alias (w_b w)) (b_src (w_b w)) (b_dst (w_b w)) (w_s w) (eq (b_dst (w_b w))) w.
+Proof. intros H. unfold St. repeat split; auto. Qed.
+
+(* the conditions on the buffers of a call: sizes below 2^63, *out_len octets available in
+   the output block, the input block holds len octets *)
+Definition call_ok (w : world) : Prop :=
+  b_oob (w_b w) = false /\ size_ok (b_len (w_b w)) /\ size_ok (b_cap (w_b w)) /\
+  b_cap (w_b w) <= lenZ (b_dst (w_b w)) /\ b_len (w_b w) <= lenZ (cur_src (w_b w)).
+Definition in_pkt (w : world) : bytes := take (zn (b_len (w_b w))) (cur_src (w_b w)).
+
+(* the class of streams covered so far: no cryptex, no header-extension cipher *)
+Definition plain_stream (st : stream) : Prop :=
+  s_cryptex st = false /\ forall k, In k (s_keys st) -> k_xtn_c k = None.
+
+(* REFINEMENT: srtp_protect computes protect_fun, whatever the alias mode and the prefill *)
+Theorem protect_refines i w st0 :
+  call_ok w ->
+  list_get (ss_list (w_s w)) (hdr_ssrc (in_pkt w)) = Some st0 -> stream_wf st0 -> plain_stream st0 ->
+  match protect i w with
+  | (w', inl l) =>
+      exists wire, protect_fun (w_s w) i (b_cap (w_b w)) (in_pkt w) = (w_s w', inl wire) /\
+                   l = lenZ wire /\ take (zn l) (b_dst (w_b w')) = wire /\
+                   b_src (w_b w') = b_src (w_b w) /\ b_oob (w_b w') = false
+  | (w', inr s) =>
+      protect_fun (w_s w) i (b_cap (w_b w)) (in_pkt w) = (w_s w', inr s) /\
+      b_src (w_b w') = b_src (w_b w) /\ b_oob (w_b w') = false
+  end.
+Proof.
+  intros (HO & HL & HC & HD & HS) Hget Hwf [Hcx Hxk].
+  assert (HLp : lenZ (in_pkt w) = b_len (w_b w)).
+  { unfold in_pkt, lenZ, zn, size_ok in *. rewrite take_length. lia. }
+  pose proof (protect_tri (b_len (w_b w)) (b_cap (w_b w)) (b_alias (w_b w)) (b_src (w_b w)) (b_dst (w_b w))
+                (in_pkt w) HL HC HD eq_refl HLp (w_s w) st0 Hget Hwf Hcx Hxk i w (St_init w HO)) as T.
+  destruct (protect i w) as [w' [l|s]]; exact T.
+Qed.
+Print Assumptions protect_refines.
+
+(* C12 (SRTP protect): the same packet protected in place and out of place (whatever the
+   destination block held): same status, same length, same output octets, same final
+   session; the out-of-place call leaves its source alone. *)
+Theorem protect_alias_independent i wa wo st0 :
+  call_ok wa -> call_ok wo ->
+  b_alias (w_b wa) = true -> b_alias (w_b wo) = false ->
+  w_s wa = w_s wo -> b_cap (w_b wa) = b_cap (w_b wo) -> in_pkt wa = in_pkt wo ->
+  list_get (ss_list (w_s wa)) (hdr_ssrc (in_pkt wa)) = Some st0 -> stream_wf st0 -> plain_stream st0 ->
+  w_s (fst (protect i wa)) = w_s (fst (protect i wo)) /\
+  b_src (w_b (fst (protect i wo))) = b_src (w_b wo) /\
+  match snd (protect i wa), snd (protect i wo) with
+  | inl la, inl lo =>
+      la = lo /\ take (zn la) (b_dst (w_b (fst (protect i wa)))) = take (zn lo) (b_dst (w_b (fst (protect i wo))))
+  | inr sa, inr so => sa = so
+  | _, _ => False
+  end.
+Proof.
+  intros Ha Ho _ _ ES EC EP Hget Hwf Hpl.
+  pose proof (protect_refines i wa st0 Ha Hget Hwf Hpl) as Ta.
+  rewrite ES, EP in Hget.
+  pose proof (protect_refines i wo st0 Ho Hget Hwf Hpl) as To.
+  rewrite ES, EC, EP in Ta.
+  destruct (protect i wa) as [wa' [la|sa]], (protect i wo) as [wo' [lo|so]]; cbn [fst snd].
+  - destruct Ta as (wa_ & Fa & -> & Da & _), To as (wo_ & Fo & -> & Do & So & _).
+    rewrite Fa in Fo. injection Fo as E1 E2. subst wo_. rewrite Da, Do. auto.
+  - destruct Ta as (wa_ & Fa & _), To as (Fo & So & _). rewrite Fa in Fo. discriminate.
+  - destruct Ta as (Fa & _), To as (wo_ & Fo & _). rewrite Fa in Fo. discriminate.
+  - destruct Ta as (Fa & _), To as (Fo & So & _). rewrite Fa in Fo. injection Fo as E1 E2. auto.
+Qed.
+Print Assumptions protect_alias_independent.
+
+(* what is on the wire after a successful call is rtp_wire of the stream (after the
+   direction update), the key selected by the MKI index and the estimated packet index *)
+Corollary protect_emits_rtp_wire i w st0 w' l :
+  call_ok w ->
+  list_get (ss_list (w_s w)) (hdr_ssrc (in_pkt w)) = Some st0 -> stream_wf st0 -> plain_stream st0 ->
+  protect i w = (w', inl l) ->
+  exists ki k est st3 wire,
+    sender_key_st (dir_stream st0 dir_srtp_sender_c) i = inl (ki, k) /\
+    index_step (charged_stream (dir_stream st0 dir_srtp_sender_c) ki) (hdr_seq (in_pkt w)) = inl (est, st3) /\
+    rtp_wire (dir_stream st0 dir_srtp_sender_c) k est (in_pkt w) = Some wire /\
+    l = lenZ wire /\ take (zn l) (b_dst (w_b w')) = wire.
+Proof.
+  intros Hc Hget Hwf Hpl E. pose proof (protect_refines i w st0 Hc Hget Hwf Hpl) as T. rewrite E in T.
+  destruct T as (wire & F & Hl & Hd & _).
+  destruct (protect_fun_wire _ _ _ _ _ _ F) as (st0' & ki & k & est & st3 & G & EK & EI & EW).
+  rewrite Hget in G. injection G as <-. exists ki, k, est, st3, wire. auto.
+Qed.
+Print Assumptions protect_emits_rtp_wire.
+
+(* ===================================================================== *)
+(* 7. REFUTED outside plain_stream: cryptex together with RFC 6904         *)
+(* ===================================================================== *)
+(* With cryptex in use and out of place, srtp_protect copies only hdr_len + 4 octets to the
+   output before the RFC 6904 walk runs over the extension elements IN THE OUTPUT BUFFER,
+   i.e. over whatever that buffer held; the payload encryption then overwrites the region
+   from the source.  So the RFC 6904 encryption is lost, and status and output depend on the
+   alias mode and on the stale content of the destination.  (srtp.c: memcpy(srtp, rtp,
+   enc_start) with enc_start moved back by srtp_cryptex_protect_init, followed by
+   srtp_process_header_encryption(stream, srtp_get_rtp_xtn_hdr(hdr, srtp), ...).) *)
+Module CxXtn.
+Import Session.
+Definition cp (serv : Z) : cpolicy :=
+  {| cp_cipher := 1; cp_keylen := 30; cp_auth := 3; cp_authkeylen := 20; cp_taglen := 10; cp_serv := serv |}.
+Definition pol : policy :=
+  {| p_ssrc_type := 1; p_ssrc := 3405691582; p_rtp := cp 3; p_rtcp := cp 3; p_usekey := true; p_nkeys := 0;
+     p_use_mki := false; p_mki_size := 0; p_window := 0; p_allow_repeat := false; p_cryptex := true;
+     p_enc_xtn := [1%N]; p_keys := [(repeat 1%N 30, [])] |}.
+Definition sess : session := w_s (fst (session_create [pol] Witness.w0)).
+(* V=2 X=1 CC=0, seq 1, SSRC CAFEBABE, one-byte-form extension of one word: id 1, 3 octets *)
+Definition pkt : bytes := [144;0;0;1; 0;0;0;0; 202;254;186;190; 190;222;0;1; 18;170;187;204; 1;2;3;4]%N.
+Definition wa : world :=
+  Witness.mkw sess {| b_src := []; b_dst := pkt ++ repeat 0%N 10; b_alias := true; b_len := 24; b_cap := 34; b_oob := false |}.
+Definition wo (fill : N) : world :=
+  Witness.mkw sess {| b_src := pkt; b_dst := repeat fill 34; b_alias := false; b_len := 24; b_cap := 34; b_oob := false |}.
+End CxXtn.
+
+Theorem protect_alias_cryptex_xtn_refuted :
+  (* same session with an explicit stream for the SSRC, same packet, same *out_len *)
+  w_s CxXtn.wa = w_s (CxXtn.wo 0) /\ in_pkt CxXtn.wa = in_pkt (CxXtn.wo 0) /\ in_pkt (CxXtn.wo 255) = in_pkt (CxXtn.wo 0) /\
+  (exists st0, list_get (ss_list (w_s CxXtn.wa)) (hdr_ssrc (in_pkt CxXtn.wa)) = Some st0 /\
+               s_cryptex st0 = true /\ s_enc_xtn st0 = [1%N]) /\
+  (* in place and out of place into a zeroed block: both succeed with 34 octets, which differ *)
+  snd (protect 0 CxXtn.wa) = inl 34 /\ snd (protect 0 (CxXtn.wo 0)) = inl 34 /\
+  slice 16 4 (b_dst (w_b (fst (protect 0 CxXtn.wa)))) = [96; 197; 32; 220]%N /\
+  slice 16 4 (b_dst (w_b (fst (protect 0 (CxXtn.wo 0))))) = [96; 171; 104; 61]%N /\
+  (* out of place into a block that held FF: parse error *)
+  snd (protect 0 (CxXtn.wo 255)) = inr st_parse_err.
+Proof.
+  split; [vm_compute; reflexivity|]. split; [vm_compute; reflexivity|]. split; [vm_compute; reflexivity|].
+  split.
+  { eexists. split; [vm_compute; reflexivity|]. split; vm_compute; reflexivity. }
+  split; [vm_compute; reflexivity|]. split; [vm_compute; reflexivity|].
+  split; [vm_compute; reflexivity|]. split; [vm_compute; reflexivity|].
+  vm_compute; reflexivity.
+Qed.
+Print Assumptions protect_alias_cryptex_xtn_refuted.
